@@ -1421,7 +1421,7 @@ static bool disp_dispatch(std::vector<i64> const& sizes, std::size_t pos, std::v
 // ------------------------------------------------------------------------- entry
 // The harness can be compiled as ONE translation unit (no C07_PART) or, to shorten the rebuild after
 // every change of /repo/include, as C07_NPARTS units (-DC07_PART=k, props/C07/pcxx.py) that each
-// instantiate a group of families; part 0 holds run_case and main; parts 10-13 are the special-member families
+// instantiate a group of families; part 0 holds run_case and main; parts 10-13 are the special-member families, part 14 the vor.* families (c07_vo.hpp)
 // (c07_sm.hpp is included by those parts only).
 #ifdef C07_PART
 #define C07_IN(k) (C07_PART == (k))
@@ -1440,6 +1440,9 @@ static bool disp_dispatch(std::vector<i64> const& sizes, std::size_t pos, std::v
 // at the end: the events of destroying b and a.  In front: the nine static traits of every alternative and
 // of the wrapper (for expected without the two assignment-triviality bits: [expected.object.assign] does not
 // say when the assignment is trivial and libstdc++'s never is).
+#if C07_IN(14)
+#include "c07_vo.hpp"
+#endif
 #if C07_IN(10) || C07_IN(11) || C07_IN(12) || C07_IN(13)
 #include "c07_sm.hpp"
 
@@ -1685,6 +1688,7 @@ bool part10(std::string const& op, Toks& in, Out& impl, Out& ref);
 bool part11(std::string const& op, Toks& in, Out& impl, Out& ref);
 bool part12(std::string const& op, Toks& in, Out& impl, Out& ref);
 bool part13(std::string const& op, Toks& in, Out& impl, Out& ref);
+bool part14(std::string const& op, Toks& in, Out& impl, Out& ref);
 // the dispatcher cases whose first variant has 3 / 4 alternatives (the bulk of the visit instantiations)
 bool disp3(std::vector<i64> const& sizes, std::vector<i64> const& idx, Out& impl, Out& ref);
 bool disp4(std::vector<i64> const& sizes, std::vector<i64> const& idx, Out& impl, Out& ref);
@@ -1809,6 +1813,13 @@ bool c07parts::part13(std::string const& op, Toks& in, Out& impl, Out& ref)
         || sm_flags<0, 32>(op, "smf.", [&](auto f) { run_sm<SmExpP, 0, int, Sm<decltype(f)::value>>(in, impl, ref); });
 }
 #endif
+// value_or with a fallback of another arithmetic type: optional<T> / expected<T, int>, T x U (c07_vo.hpp)
+#if C07_IN(14)
+bool c07parts::part14(std::string const& op, Toks& in, Out& impl, Out& ref)
+{
+    return c07vo::run<EtlLib, StdLib>(op, in, impl, ref);
+}
+#endif
 #if C07_IN(0)
 bool c07parts::part0(std::string const& op, Toks& in, Out& impl, Out& ref)
 {
@@ -1834,7 +1845,8 @@ bool vh::run_case(std::string const& op, Toks& in, Out& impl, Out& ref)
     // every part returns false without consuming tokens when the family is not its own
     return part0(op, in, impl, ref) || part1(op, in, impl, ref) || part2(op, in, impl, ref) || part3(op, in, impl, ref)
         || part4(op, in, impl, ref) || part5(op, in, impl, ref) || part8(op, in, impl, ref) || part9(op, in, impl, ref)
-        || part10(op, in, impl, ref) || part11(op, in, impl, ref) || part12(op, in, impl, ref) || part13(op, in, impl, ref);
+        || part10(op, in, impl, ref) || part11(op, in, impl, ref) || part12(op, in, impl, ref) || part13(op, in, impl, ref)
+        || part14(op, in, impl, ref);
 }
 
 VERIF_MAIN()
